@@ -834,6 +834,92 @@ TITLE = {'bin': 'visit_BinOp (arithmetic/bitwise)', 'shift': 'visit_BinOp (shift
          'ifexp': 'visit_IfExp', 'assign': '_visit_Assign_single_target (signal)'}
 
 
+def _bool_struct_points(repo):
+    """comparison results (rdt.Bool) meeting explicit vectors, and struct <-> vector assignments.
+    The rdt equality / castability methods (__eq__, __ne__, __call__) are interpreted from the source."""
+    w = world(repo)
+    _gm, _gf, opmap = gen_opmap(repo)
+    out = []
+
+    def boolnode():
+        n = w.new(w.bir, 'Compare', w.operand('E', SymInt(4, sym='wa')), w.new(w.bir, 'Lt'), w.operand('E', SymInt(4, sym='wb')))
+        n.attrs['Type'] = w.new(w.rt, 'NetWire', w.new(w.rdt, 'Bool'))
+        n.attrs['_is_explicit'] = True
+        return n
+    for side in ('left', 'right'):
+        for wv in (1, 4):
+            def operands():
+                v = w.operand('E', SymInt(wv, sym='wv'))
+                return (boolnode(), v) if side == 'left' else (v, boolnode())
+            must = wv != 1
+            for kd, title, handler in (('bin', 'visit_BinOp (arithmetic/bitwise)', 'visit_BinOp'), ('cmp', 'visit_Compare', 'visit_Compare')):
+                excs = []
+                for k, b in sorted(opmap.items()):
+                    if _kind(k) != kd or k in SHIFT_K:
+                        continue
+                    l, r_ = operands()
+                    node = w.new(w.bir, 'BinOp' if kd == 'bin' else 'Compare', l, w.new(w.bir, b), r_)
+                    excs.append((k, w.run(w.checker(), handler, node)))
+                ex = f"`(s.a < s.b) {PY_TOKEN.get(excs[0][0], '==')} s.in{wv}`" if side == 'left' else \
+                    f"`s.in{wv} {PY_TOKEN.get(excs[0][0], '==')} (s.a < s.b)`"
+                out.append((f"{title}: comparison result (1-bit Bool) on the {side}, explicit {wv}-bit vector on the other side",
+                            handler, ex, must, excs))
+            l, r_ = operands()
+            node = w.new(w.bir, 'IfExp', w.operand('E', SymInt(1, sym='wc')), l, r_)
+            out.append((f"visit_IfExp: comparison result (1-bit Bool) as {'body' if side == 'left' else 'orelse'}, explicit {wv}-bit vector as the other arm",
+                        'visit_IfExp', f"`(s.a < s.b) if c else s.in{wv}`" if side == 'left' else f"`s.in{wv} if c else (s.a < s.b)`",
+                        must, [('IfExp', w.run(w.checker(), 'visit_IfExp', node))]))
+    for wv in (1, 4):
+        tgt = w.new(w.bir, 'Attribute', Opaque('base'), 'out')
+        tgt.attrs.update(Type=w.new(w.rt, 'Port', 'output', w.vec(SymInt(wv, sym='wl'))), _is_explicit=True)
+        val = boolnode()
+        node = w.new(w.bir, 'Assign', [tgt], val, True)
+        out.append((f"_visit_Assign_single_target (signal): comparison result (1-bit Bool) assigned to an explicit {wv}-bit signal",
+                    '_visit_Assign_single_target', f"`s.out{wv} @= s.a < s.b`", wv != 1,
+                    [('Assign', w.run(w.checker(), '_visit_Assign_single_target', node, tgt, 0))]))
+    # struct <-> vector assignment
+    cls_a, cls_b = w.I.get_class(BIR, 'Base'), w.I.get_class(BIR, 'Number')     # stand-ins for two bitstruct classes (only __name__ is read)
+
+    def struct(cls=cls_a, sym=True):
+        return w.new(w.rdt, 'Struct', cls, {'a': w.vec(SymInt(3, sym='fa') if sym else 3), 'b': w.vec(SymInt(5, sym='fb') if sym else 5)})
+    for s_side in ('LHS', 'RHS'):
+        for oname, wv in (('narrower than', 4), ('as wide as', 8), ('wider than', 12)):
+            tgt = w.new(w.bir, 'Attribute', Opaque('base'), 'out')
+            val = w.new(w.bir, 'Attribute', Opaque('base'), 'in_')
+            if s_side == 'LHS':
+                tgt.attrs.update(Type=w.new(w.rt, 'Port', 'output', struct()), _is_explicit=True)
+                val.attrs.update(Type=w.new(w.rt, 'Wire', w.vec(SymInt(wv, sym='wv'))), _is_explicit=True)
+                ex = f"`s.out_struct8 @= s.in{wv}`"
+            else:
+                tgt.attrs.update(Type=w.new(w.rt, 'Port', 'output', w.vec(SymInt(wv, sym='wv'))), _is_explicit=True)
+                val.attrs.update(Type=w.new(w.rt, 'Wire', struct()), _is_explicit=True)
+                ex = f"`s.out{wv} @= s.in_struct8`"
+            node = w.new(w.bir, 'Assign', [tgt], val, True)
+            out.append((f"_visit_Assign_single_target (struct): 8-bit struct on the {s_side}, explicit vector {oname} the struct on the other side",
+                        '_visit_Assign_single_target', ex, wv != 8,
+                        [('Assign', w.run(w.checker(), '_visit_Assign_single_target', node, tgt, 0))]))
+    for oname, wv, lit in (('narrower than', 4, 9), ('as wide as', 8, 200)):
+        tgt = w.new(w.bir, 'Attribute', Opaque('base'), 'out')
+        tgt.attrs.update(Type=w.new(w.rt, 'Port', 'output', struct()), _is_explicit=True)
+        val = w.operand('Ic', SymInt(wv, sym='wv'), SymInt(lit, sym='v'))
+        node = w.new(w.bir, 'Assign', [tgt], val, True)
+        exc = w.run(w.checker(), '_visit_Assign_single_target', node, tgt, 0)
+        if exc is None and w.nwidth(val).v != 8:
+            exc = 'literal-not-resized'
+        out.append((f"_visit_Assign_single_target (struct): 8-bit struct on the LHS, literal {oname} the struct on the RHS (re-sized to the struct width)",
+                    '_visit_Assign_single_target', f"`s.out_struct8 @= <{wv}-bit literal>`", False, [('Assign', exc)]))
+    for same in (True, False):
+        tgt = w.new(w.bir, 'Attribute', Opaque('base'), 'out')
+        val = w.new(w.bir, 'Attribute', Opaque('base'), 'in_')
+        tgt.attrs.update(Type=w.new(w.rt, 'Port', 'output', struct(cls_a, False)), _is_explicit=True)
+        val.attrs.update(Type=w.new(w.rt, 'Wire', struct(cls_a if same else cls_b, False)), _is_explicit=True)
+        node = w.new(w.bir, 'Assign', [tgt], val, True)
+        out.append((f"_visit_Assign_single_target (struct): {'the same' if same else 'two different'} struct type(s) on both sides",
+                    '_visit_Assign_single_target', "`s.out_structA @= s.in_struct" + ('A`' if same else 'B`'), not same,
+                    [('Assign', w.run(w.checker(), '_visit_Assign_single_target', node, tgt, 0))]))
+    return out
+
+
 def _where(w, handler):
     f = w.I.find_method(w.ck_cls, handler)
     if f is None:
@@ -869,12 +955,26 @@ def rule_mismatch(repo):
                   f"{' ...' if len(ops) > 6 else ''}", wl_)
         else:
             r.ok(wm, wq, cons)
+    for cons, handler, ex, must, excs in _bool_struct_points(repo):
+        wm, wq, wl_ = _where(w, handler)
+        bad = []
+        for k, exc in excs:
+            if must and exc is None:
+                bad.append((k, "ACCEPTED although the widths differ (the simulator raises a bitwidth mismatch error)"))
+            elif must and exc != 'PyMTLTypeError':
+                bad.append((k, f"ends with {exc} instead of PyMTLTypeError"))
+            elif not must and exc is not None:
+                bad.append((k, "REJECTED although the widths agree" if exc == 'PyMTLTypeError' else f"ends with {exc}"))
+        if bad:
+            r.bad(wm, wq, cons, f"{ex} is {bad[0][1]}; affected: {', '.join(sorted(k for k, _ in bad)[:6])}", wl_)
+        else:
+            r.ok(wm, wq, cons)
     pw = probe_world(repo)
     ppts = _run_pair_points(repo, pw, only=('cmp',))
     if not any(_unify_verdict(pw, p['exc'], p['le'], p['re'], p['wl'], p['wr'], p['l'], p['r'])[1] for p in ppts):
         raise AnalysisError("R-C10-mismatch: the embedded checker without width tests is not flagged")
-    r.evaluations = len(pts) + len(ppts)
-    r.require_floor(38)
+    r.evaluations = w.evals + len(ppts)
+    r.require_floor(58)
     return r
 
 
@@ -1196,7 +1296,15 @@ def rule_widthtable(repo):
     return r
 
 
-RULES = [rule_intlog, rule_litwidth, rule_idxwidth, rule_optable, rule_handlers, rule_mismatch, rule_widthtable]
+def rule_sim_accepts(repo):
+    """"accepted code never raises a width error in simulation" also depends on the simulator accepting exactly the operands it
+    documents: an int operand guard that is too strict (e.g. `other >= up` in __rsub__) makes checker-accepted code such as
+    `7 - s.in3` raise.  Shared with C04 (R-C04-guard: every operator's accepted int region is exactly 0..2^n-1)."""
+    from rules.c04 import rule_guard
+    return rule_guard(repo)
+
+
+RULES = [rule_intlog, rule_litwidth, rule_idxwidth, rule_optable, rule_handlers, rule_mismatch, rule_widthtable, rule_sim_accepts]
 
 
 # ---------------------------------------------------------------------------
@@ -1227,6 +1335,17 @@ MUTANTS = [
     _m('defect-c-fold-explicit-by-value', TC2, _FIX_C, "      node.Type = s.rtlir_getter.get_rtlir( node._value )\n", 'R-C10-widthtable'),
     _m('defect-d-negative-width-L1', TC1, "      return (abs(value)-1).bit_length() + 1\n", "      return (abs(value)-1).bit_length()\n", 'R-C10-litwidth'),
     _m('defect-d-negative-width-rdt', RDT, "    return (abs(value)-1).bit_length() + 1\n", "    return (abs(value)-1).bit_length()\n", 'R-C10-litwidth'),
+    # second round: rdt equality of comparison results, struct <-> vector assignment
+    _m('bool-equals-any-vector', RDT, "    return isinstance(other, Bool) or \\\n           (isinstance(other, Vector) and other.nbits==1)",
+       "    return isinstance( other, ( Bool, Vector ) )", 'R-C10-mismatch'),
+    _m('vector-equals-bool-any-width', RDT, "(s.nbits == 1 and isinstance(other, Bool))", "isinstance(other, Bool)", 'R-C10-mismatch'),
+    _m('struct-rhs-width-compared-with-itself', TC3, "        if l_is_struct:\n          vector_nbits = node.value.Type.get_dtype().get_length()\n",
+       "        vector_nbits = node.value.Type.get_dtype().get_length()\n", 'R-C10-mismatch'),
+    _m('struct-vector-width-test-one-sided', TC3, "        if struct_nbits != vector_nbits:\n          if l_is_struct:", "        if struct_nbits < vector_nbits:\n          if l_is_struct:", 'R-C10-mismatch'),
+    _m('struct-name-test-dropped', TC3, "        if lhs_type.get_name() != rhs_type.get_name():", "        if lhs_type.get_length() != rhs_type.get_length():", 'R-C10-mismatch'),
+    _m('struct-literal-not-resized', TC3, "        if not r_is_struct and is_rhs_reinterpretable and struct_nbits != vector_nbits:", "        if not r_is_struct and not is_rhs_reinterpretable and struct_nbits != vector_nbits:", 'R-C10-mismatch'),
+    _m('defect-e-ifexp-bool-arm-not-unified', TC2, "    lhs_is_vector = isinstance(lhs_dtype, (rdt.Vector, rdt.Bool))\n    rhs_is_vector = isinstance(rhs_dtype, (rdt.Vector, rdt.Bool))\n",
+       "    lhs_is_vector = isinstance(lhs_dtype, rdt.Vector)\n    rhs_is_vector = isinstance(rhs_dtype, rdt.Vector)\n", 'R-C10-mismatch'),
     # literal width
     _m('float-log-reintroduced-L1', TC1, "      return value.bit_length()\n", "      return math.ceil(math.log2(value+1))\n", 'R-intlog'),
     _m('float-log-reintroduced-rdt', RDT, "    return value.bit_length()\n", "    return ceil(log2(value+1))\n", 'R-C10-litwidth'),
